@@ -1,6 +1,7 @@
 import JunoModel.C11.Model
 import JunoModel.C11.ModelSpec
 import JunoModel.C11.ModelGo
+import JunoModel.C11.ModelTransport
 /-! C11 — helper lemmas for Props.lean. -/
 namespace Juno.C11
 
@@ -865,5 +866,16 @@ theorem isBatch_iff (cfg : Config) (inp : Input) :
   cases cfg.peekLimit with
   | none => simp
   | some n => simp
+
+/-! ### transports -/
+
+theorem ws_pairing (cfg : Config) (env : Env) (tbl : Table) (msgs : List Input) :
+    Forall₂ (fun m r => (handleInput cfg env tbl m).body = some r)
+      (msgs.filter (fun m => (handleInput cfg env tbl m).body.isSome))
+      (wsWire (wsSession cfg env tbl msgs)) := by
+  have := forall₂_filter_filterMap (fun m => (handleInput cfg env tbl m).body) msgs
+  simpa [wsWire, wsSession, List.filterMap_map, Function.comp_def] using this
+
+/-! ### positional vs named without an optional tail -/
 
 end Juno.C11
